@@ -259,7 +259,7 @@ func randomBytes(r *rand.Rand, n int) string {
 }
 
 func regexSoup(r *rand.Rand) string {
-	atoms := []string{"a", "b", "(", ")", "[", "]", "{", "}", "|", "*", "+", "?", "\\", "d", "k", "<", ">", "^", "$", ".", "-", "1", ",", ":", "=", "!"}
+	atoms := []string{"a", "b", "(", ")", "[", "]", "{", "}", "|", "*", "+", "?", "\\", "d", "k", "<", ">", "^", "$", ".", "-", "1", ",", ":", "=", "!", "{1", "{1,", "{1,2", "}"}
 	n := r.Intn(7)
 	var b strings.Builder
 	for i := 0; i < n; i++ {
@@ -282,6 +282,7 @@ var c08Seeds = []string{
 	"set f to transform return 1 ) 2 3 end", "set f to transform else end", "set f to transform begin begin end",
 	"set p to pattern 'a' begin return true", "set p to pattern 'a' begin return true end end",
 	"find all exactly 2 'a' named foo", "find all not", "find all not in", "find all whole", "find all line 'a'",
+	"find all @/a{1</", "find all @/a{/", "find all @/a{1,/", "find all @/(/", "find all @/[/", "find all @/\\/", "find all @/(a)(b)/ @/(c)/",
 }
 
 func addCase(cases *[]Case, seen map[string]bool, st *Stats, stream string, src string) {
